@@ -221,6 +221,25 @@ pub fn fam_seq(tier: Tier) -> Vec<Config> {
             }
         }
     }
+    // two rules of one feature that share their name (or have none) but not their background
+    for tag in ["twin-rules", "unnamed-rules"] {
+        for bg2 in [0usize, 2] {
+            for conc in [1usize, 2] {
+                for after in [false, true] {
+                    let mut cfg = base(format!("seq/{tag}|bg{bg2}|c{conc}|a{}", u8::from(after)));
+                    let r1 = RuleSpec { tags: vec![], bg: vec![M], scenarios: vec![scen(&[], &[M])] };
+                    let r2 = RuleSpec { tags: vec![], bg: vec![M; bg2], scenarios: vec![scen(&[], &[M]), scen(&[], &[])] };
+                    cfg.feats = vec![FeatSpec { tags: vec![tag.into()], bg: vec![], scenarios: vec![], rules: vec![r1, r2] }];
+                    cfg.items = vec![Item::Feat(0)];
+                    cfg.after = after;
+                    cfg.conc_builder = Some(Some(conc));
+                    cfg.plan.gates = GateMode::Steps;
+                    cfg.max_execs = if tier == Tier::Quick { 500 } else { 50_000 };
+                    out.push(cfg);
+                }
+            }
+        }
+    }
     out
 }
 
@@ -997,7 +1016,8 @@ pub fn fam_ff(tier: Tier) -> Vec<Config> {
         }
     }
     // every kind of final failure trips fail-fast, not only a panicking step
-    for kind in ["ambiguous", "before", "after", "world-err", "world-panic"] {
+    // (`after-skip`: a skipped step plus a failing after hook)
+    for kind in ["ambiguous", "before", "after", "after-skip", "world-err", "world-panic"] {
         for failing in 0..3usize {
             for conc in [Some(1usize), Some(2)] {
                 for retry in 0..=1usize {
@@ -1010,11 +1030,14 @@ pub fn fam_ff(tier: Tier) -> Vec<Config> {
                     if kind == "ambiguous" {
                         scs[failing] = scen(&[], &[StepKind::Ambiguous, M]);
                     }
+                    if kind == "after-skip" {
+                        scs[failing] = scen(&[], &[StepKind::NoMatch, M]);
+                    }
                     let (a, b) = scs.split_at(1);
                     cfg.feats = vec![feat(a.to_vec()), feat(b.to_vec())];
                     cfg.items = vec![Item::Feat(0), Item::Feat(1)];
                     cfg.before = kind == "before";
-                    cfg.after = kind == "after";
+                    cfg.after = kind.starts_with("after");
                     cfg.conc_builder = Some(conc);
                     cfg.fail_fast_builder = true;
                     if retry > 0 {
@@ -1023,10 +1046,11 @@ pub fn fam_ff(tier: Tier) -> Vec<Config> {
                     cfg.plan.gates = GateMode::Steps;
                     let infos = cfg.scen_infos();
                     match kind {
-                        "before" | "after" => {
+                        "before" | "after" | "after-skip" => {
+                            let hook = kind.split('-').next().unwrap_or(kind);
                             cfg.plan
                                 .outcomes
-                                .insert(format!("{kind} {}", infos[failing].name), vec![Outcome::PanicString]);
+                                .insert(format!("{hook} {}", infos[failing].name), vec![Outcome::PanicString]);
                         }
                         "world-err" => cfg.plan.world_new = vec![WOutcome::Err; retry + 1],
                         "world-panic" => cfg.plan.world_new = vec![WOutcome::Panic; retry + 1],
@@ -1569,6 +1593,36 @@ pub fn fam_resolve(tier: Tier) -> Vec<Config> {
             out.push(c);
         }
     }
+    // the resolved delay holds for serial scenarios as well, whatever else is queued: a failing
+    // serial scenario next to a second serial (or a concurrent) one, delay from each source
+    for src in ["tag", "cli", "builder", "cli-over-builder"] {
+        for other_serial in [true, false] {
+            for conc in [1usize, 2] {
+                let mut c = base(String::new());
+                let t1: Vec<&str> = if src == "tag" { vec!["serial", "retry(1).after(5s)"] } else { vec!["serial"] };
+                let t2: Vec<&str> = if other_serial { vec!["serial"] } else { vec![] };
+                c.feats = vec![feat(vec![scen(&t1, &[M]), scen(&t2, &[M]), scen(&t2, &[M])])];
+                c.items = vec![Item::Feat(0)];
+                c.conc_builder = Some(Some(conc));
+                match src {
+                    "cli" => c.retry_after_cli = Some(Duration::from_secs(5)),
+                    "builder" => c.retry_after_builder = Some(Duration::from_secs(5)),
+                    "cli-over-builder" => {
+                        c.retry_after_cli = Some(Duration::from_secs(5));
+                        c.retry_after_builder = Some(Duration::from_secs(1));
+                    }
+                    _ => {}
+                }
+                c.plan.gates = GateMode::Steps;
+                let infos = c.scen_infos();
+                c.plan.outcomes.insert(infos[0].calls[0].key.clone(), vec![Outcome::PanicString, Outcome::Pass]);
+                c.bound = Some(2);
+                c.max_execs = 300;
+                c.name = format!("resolve/S|{src}|os{}|c{conc}", u8::from(other_serial));
+                out.push(c);
+            }
+        }
+    }
     // "`--fail-fast` adds to the builder settings" on the parser-error path as well:
     // whichever side asked for it, no feature is ingested after a parser error
     for (ffb, ffc) in [(false, false), (true, false), (false, true), (true, true)] {
@@ -1752,8 +1806,16 @@ pub fn fam_big(tier: Tier) -> Vec<Config> {
                             bg: vec![M, M],
                             scenarios: vec![scen(&[], &[M]), scen(&[], &[M, M])],
                         };
+                        // (its two rules share one name, or have none, in half of the configurations)
+                        let ftags: Vec<String> = if hooks && ff {
+                            vec!["twin-rules".into()]
+                        } else if lazy && !ff {
+                            vec!["unnamed-rules".into()]
+                        } else {
+                            vec![]
+                        };
                         cfg.feats = vec![
-                            FeatSpec { tags: vec![], bg: vec![M], scenarios: f1, rules: vec![r1, r2] },
+                            FeatSpec { tags: ftags, bg: vec![M], scenarios: f1, rules: vec![r1, r2] },
                             FeatSpec {
                                 tags: vec!["retry(2)".into()],
                                 bg: vec![],
